@@ -148,6 +148,16 @@ func themeTxnConflict(r *Run, rng *rand.Rand) *routerGen {
 	return g
 }
 
+// a route registered on an intermediate node that already has edges, then a write that splits one of those edges, in a
+// transaction that commits or aborts
+func themeTxnMid(r *Run, rng *rand.Rand) *routerGen {
+	g := txnBase([]string{"/a/b", "/a/c", "/a/", "/a/bc"}, []string{"Handle"}, 2, 0)
+	g.Settled = []string{"Has"}
+	stdProbes(g, rng, 4)
+	g.Probes = append(g.Probes, probeReq{M: 1, Path: "/a/bc"}, probeReq{M: 1, Path: "/a/"}, probeReq{M: 1, Path: "/a/b"})
+	return g
+}
+
 func txnBase(pool []string, kinds []string, maxOps, snaps int) *routerGen {
 	g := baseGen(pool, []string{"GET"})
 	g.Txns, g.Snaps, g.MaxOps = 1, snaps, maxOps
@@ -208,7 +218,7 @@ func checkC02(r *Run) {
 // C07 - routing depends only on the registered set, not on its history.
 func checkC07(r *Run) {
 	if only("themes") {
-		runThemes(r, 7, themeSeqPath, themeSeqHost, themeTxnFanout, themeTxnNested, themeTxnTrunc)
+		runThemes(r, 7, themeSeqPath, themeSeqHost, themeTxnFanout, themeTxnNested, themeTxnTrunc, themeTxnMid)
 	}
 	if only("matchd2") {
 		runMatchD2(r, true, true)
